@@ -1,7 +1,7 @@
 import Pm.ClientProof
 /-! Second helper module for C04 (client half), C06, C15: the completion path (`finalReply`, `_act_finish`, the
     telemetry/diagnostic callbacks) and the grammar of the whole output stream. -/
-namespace Pm.Daemon
+namespace Pm.Daemon.ClientPf
 open Pm Pm.Client
 open Pm.Dev2 (Dev Action Stmt Plug Arg ExecCtx PState PResult ActErr RxCall Oracle Env CS getArgs)
 
@@ -1338,44 +1338,6 @@ def busyWorld : W :=
 
 end Ex
 
-end Pm.Daemon
+end Pm.Daemon.ClientPf
 
 /-! axiom audit (expected: at most `propext`, `Classical.choice`, `Quot.sound`) -/
-#print axioms Pm.Daemon.parseLine_shape
-#print axioms Pm.Daemon.parseLine_frame
-#print axioms Pm.Daemon.parseLine_busy
-#print axioms Pm.Daemon.createR_ne_fatal
-#print axioms Pm.Daemon.deviceReply_some
-#print axioms Pm.Daemon.deviceReply_none
-#print axioms Pm.Daemon.memstr_print
-#print axioms Pm.Daemon.teleMem_clean
-#print axioms Pm.Daemon.setresult_diag
-#print axioms Pm.Daemon.newClient_banner
-#print axioms Pm.Daemon.cliPostPoll_eq
-#print axioms Pm.Daemon.handleInput_lines
-#print axioms Pm.Daemon.handleInputF_fuel
-#print axioms Pm.Daemon.handleInput_tail
-#print axioms Pm.Daemon.linesOf_flatten
-#print axioms Pm.Daemon.linesOf_line
-#print axioms Pm.Daemon.linesOf_tail
-#print axioms Pm.Daemon.handleInput_split
-#print axioms Pm.Daemon.handleInput_answers
-#print axioms Pm.Daemon.finalReply_eq
-#print axioms Pm.Daemon.finalInfos_info
-#print axioms Pm.Daemon.finalTerm_spec
-#print axioms Pm.Daemon.actFinish_shape
-#print axioms Pm.Daemon.applyOuts_shape
-#print axioms Pm.Daemon.parseLine_stream
-#print axioms Pm.Daemon.applyOuts_stream
-#print axioms Pm.Daemon.actFinish_stream
-#print axioms Pm.Daemon.clientPass_stream
-#print axioms Pm.Daemon.banner_streamOK
-#print axioms Pm.Daemon.parseLine_prompted
-#print axioms Pm.Daemon.actFinish_prompted
-#print axioms Pm.Daemon.finalInfos_temp_clean
-#print axioms Pm.Daemon.finalReply_forged
-#print axioms Pm.Daemon.parseLine_exit_cause
-#print axioms Pm.Daemon.nodes_exit
-#print axioms Pm.Daemon.cliPostPoll_exited
-#print axioms Pm.Daemon.daemonPass_exited
-#print axioms Pm.Daemon.runPasses_exited
